@@ -595,13 +595,13 @@ def run_check(spec, tier, seed):
         st = r.get("stats") or {}
         solver_s += float(st.get("runtime_decision_procedure_s", 0) or 0)
         symex_s += float(st.get("runtime_symex_s", 0) or 0)
-        props += r.get("properties", 0)
+        props += r.get("properties") or 0
         if r["status"] == "holds" and r["covers_total"] >= max(1, h.covers) and r["covers_satisfied"] == r["covers_total"]:
             nontrivial += 1
         samples.append({
             "harness": h.name, "what": h.desc, "symbolic_inputs": h.inputs, "bound": h.bound,
             "verdict": r["status"], "reason": r.get("reason", ""),
-            "cbmc_properties": r.get("properties", 0),
+            "cbmc_properties": r.get("properties") or 0,
             "reachability_witnesses": "%d/%d" % (r["covers_satisfied"], r["covers_total"]),
             "vccs": st.get("vccs_generated"), "vccs_after_simplification": st.get("vccs_remaining"),
             "program_steps": st.get("size_program_expression"),
@@ -623,7 +623,7 @@ def run_check(spec, tier, seed):
                     "witness of the harness was SATISFIED (the assertion is reached on the interesting paths).",
             "samples": samples,
             "obligations": props,
-            "discharged": sum(s["cbmc_properties"] for s in samples if s["verdict"] == "holds"),
+            "discharged": sum((s["cbmc_properties"] or 0) for s in samples if s["verdict"] == "holds"),
             "checker_cmd": "cargo kani --harness <name> --exact  (Kani 0.68.0, CBMC 6.11.0, CaDiCaL), in /verif/harness/%s" % crate,
             "trusted_base": spec.get("trusted_base", []) + [
                 "Kani 0.68.0 / CBMC 6.11.0 / CaDiCaL and their model of Rust (dev profile, Kani's pinned nightly)",
